@@ -377,18 +377,26 @@ func c01Deliver(c *Check) {
 				}
 				// range X node of a loop that stores the error for every element of the full recipient list
 				if st.name != "AddRcpt" {
-					for _, rs := range rangesIn(r.FI.Decl.Body, func(rs *ast.RangeStmt) bool { return rs.X == n }) {
-						if st.name == "Start" {
-							if wantRange != nil && !sameExpr(rs.X, wantRange) {
-								continue
-							}
-						} else if acceptedObj == nil || objOf(info, rs.X) != acceptedObj {
+					// any whole-list loop form (range with value, range with index, counting loop)
+					for _, l := range elemLoops(info, r.FI.Decl.Body, func(e ast.Expr) bool {
+						sl, isSl := info.TypeOf(e).Underlying().(*types.Slice)
+						return isSl && isStringType(sl.Elem())
+					}) {
+						if !l.Whole || !r.F.LoopHeadIs(l, p) {
 							continue
 						}
+						if st.name == "Start" {
+							if wantRange != nil && !sameExpr(l.List, wantRange) {
+								continue
+							}
+						} else if acceptedObj == nil || objOf(info, l.List) != acceptedObj {
+							continue
+						}
+						l := l
 						ok := false
-						ast.Inspect(rs.Body, func(x ast.Node) bool {
+						ast.Inspect(l.Body, func(x ast.Node) bool {
 							if s, isAs := x.(*ast.AssignStmt); isAs && len(s.Lhs) == 1 && len(s.Rhs) == 1 && objOf(info, s.Rhs[0]) == eo {
-								if k, isStore := isErrsStore(s.Lhs[0]); isStore && rs.Value != nil && objOf(info, k) == objOf(info, rs.Value) {
+								if k, isStore := isErrsStore(s.Lhs[0]); isStore && l.IsElem(k) {
 									ok = true
 								}
 							}
